@@ -73,6 +73,13 @@ def templates():
         T.append(P + [fin(("tuple", [m("mi", lit(1)), m("ms", ("s", "a")), m("mb", blit(True))]))])
         k[0] = 0
         T.append(P + [fin(("struct", [("b", m("mi", lit(1))), ("a", m("mi", lit(2))), ("c", m("mi", lit(3)))]))])
+        # a struct literal that repeats a field name: every field expression is still evaluated, in order, once
+        k[0] = 0
+        T.append(P + [fin(("struct", [("a", m("mi", lit(1))), ("a", m("mi", lit(2)))]))])
+        k[0] = 0
+        T.append(P + [fin(("struct", [("a", m("mi", lit(1))), ("b", m("mi", lit(2))), ("a", m("mi", lit(3)))]))])
+        k[0] = 0
+        T.append(P + [fin(("facc", ("struct", [("a", m("mi", lit(1))), ("b", m("ms", ("s", "x"))), ("a", m("mi", lit(3))), ("b", m("ms", ("s", "y")))]), "a"))])
         k[0] = 0
         T.append(P + [fin(("repeat", m("mi", lit(5)), m("mi", lit(2))))])
         # index and slice
